@@ -102,6 +102,15 @@ func (mc *machine) violation(key, format string, args ...interface{}) {
 
 var snapCfg = snapshot.Config{CacheSize: 1, AsyncBuild: false}
 
+// C08_OFF=model,geth,content switches oracles off (sensitivity experiments only: which oracle catches a mutant alone).
+var off = func() map[string]bool {
+	m := map[string]bool{}
+	for _, k := range strings.Split(os.Getenv("C08_OFF"), ",") {
+		m[k] = true
+	}
+	return m
+}()
+
 func newMachine(t ev.TB, withSnaps, quiet, override bool) *machine {
 	mc := &machine{t: t, withSnaps: withSnaps, quiet: quiet, override: override, st: &caseStats{kinds: map[string]int{}}}
 	mc.disk = memorydb.New()
@@ -174,10 +183,10 @@ func (mc *machine) checkAll(where string) *obs {
 	var oa *obs
 	mc.guard(func() { oa = observeK(mc.A, mc.txs) })
 	om := mc.m.observe()
-	if f, d := oa.diff(om); f != "" {
+	if f, d := oa.diff(om); f != "" && !off["model"] {
 		mc.violation("model."+f, "%s: StateDB vs reference model: %s", where, d)
 	}
-	if mc.G != nil {
+	if mc.G != nil && !off["geth"] {
 		og := observeG(mc.G, oa)
 		if f, d := oa.diff(og); f != "" {
 			mc.violation("geth."+f, "%s: go-kardia StateDB vs go-ethereum v1.9.15 StateDB on the same history: %s", where, d)
@@ -276,12 +285,12 @@ func (mc *machine) mut(o op) {
 			reset = reset || k == "reset"
 		}
 		gr := applyG(mc.G, &o, reset, existed)
-		if o.k == opInterRoot && common.Hash(gr) != o.root {
+		if o.k == opInterRoot && common.Hash(gr) != o.root && !off["geth"] {
 			mc.violation("geth.intermediate-root", "IntermediateRoot(%v) = %x, go-ethereum v1.9.15 on the same history gives %x", o.del, o.root, gr)
 		}
 	}
 	if o.k == opInterRoot {
-		if cr := contentRoot(&mc.m); cr != o.root {
+		if cr := contentRoot(&mc.m); cr != o.root && !off["content"] {
 			mc.violation("root.content-only", "IntermediateRoot(%v) = %x, root recomputed from the content alone = %x\ncontent:\n%s", o.del, o.root, cr, wantContent(&mc.m))
 		}
 	}
@@ -324,7 +333,7 @@ func (mc *machine) commit(o op) {
 		mc.violation("replay.commit-root", "Commit root of the history with reverts = %x; fresh state with only the non-reverted operations commits to %x (%v)", rootA, rootC, errC)
 	}
 	mc.m.finalise(o.del)
-	if cr := contentRoot(&mc.m); cr != rootA {
+	if cr := contentRoot(&mc.m); cr != rootA && !off["content"] {
 		mc.violation("root.content-only", "Commit(%v) = %x, root recomputed from the content alone = %x\ncontent:\n%s", o.del, rootA, cr, wantContent(&mc.m))
 	}
 	var rootG gcommon.Hash
@@ -334,7 +343,7 @@ func (mc *machine) commit(o op) {
 		if gerr != nil {
 			mc.t.Fatalf("geth commit: %v", gerr)
 		}
-		if common.Hash(rootG) != rootA {
+		if common.Hash(rootG) != rootA && !off["geth"] {
 			mc.violation("geth.commit-root", "Commit(%v) = %x, go-ethereum v1.9.15 on the same history commits to %x", o.del, rootA, rootG)
 		}
 	}
@@ -511,6 +520,7 @@ func (mc *machine) read(o op) {
 		ex = mc.A.Exist(a)
 	})
 	switch {
+	case off["model"]:
 	case st != vals[ac.st[o.s]]:
 		mc.violation("model.storage", "GetState(a%d,s%d)=%x, model %x", o.a, o.s, st, vals[ac.st[o.s]])
 	case cst != vals[ac.cst[o.s]]:
